@@ -8,6 +8,7 @@ CONSTANTS
   Split = FALSE
   PeekStop = FALSE
   WireGaps = FALSE
+  CutStop = FALSE
 SPECIFICATION GSpec
 INVARIANT EmitSched
 CHECK_DEADLOCK FALSE
